@@ -4,10 +4,14 @@ go 1.23
 
 require (
 	github.com/zclconf/go-cty v0.0.0
+	golang.org/x/text v0.11.0
 	golang.org/x/tools v0.29.0
 )
 
 require (
+	github.com/apparentlymart/go-textseg/v15 v15.0.0 // indirect
+	github.com/vmihailenco/msgpack/v5 v5.3.5 // indirect
+	github.com/vmihailenco/tagparser/v2 v2.0.0 // indirect
 	golang.org/x/mod v0.22.0 // indirect
 	golang.org/x/sync v0.10.0 // indirect
 )
